@@ -162,7 +162,7 @@ def paths(stmts, val, defs=None, enter_loops=False, limit=64, track=False, call_
     defs = defs or {}
     done = []
 
-    def bind(s, consts):
+    def bind(s, consts, val):
         """consts after the simple statement s"""
         if not track or not isinstance(s, (ast.Assign, ast.AugAssign)):
             return consts
@@ -200,33 +200,66 @@ def paths(stmts, val, defs=None, enter_loops=False, limit=64, track=False, call_
                 out.pop(tgt.id, None)
         return out
 
-    def go(todo, effects, free, consts=None):
+    def implied(test, outcome, v, consts):
+        """atoms whose value follows from `test` having had this outcome (so that a later test on the same atom is not
+        forked into an infeasible path)"""
+        out = {}
+        p, neg = positive(test)
+        want = (not outcome) if neg else outcome
+        if isinstance(p, ast.BoolOp):
+            vals = [tv(x, v, defs, 0, consts if track else None) for x in p.values]
+            if isinstance(p.op, ast.And) and want:
+                for x in p.values:
+                    out.update(implied(x, True, v, consts))
+            elif isinstance(p.op, ast.Or) and not want:
+                for x in p.values:
+                    out.update(implied(x, False, v, consts))
+            elif isinstance(p.op, ast.And) and not want:
+                unknown = [x for x, r in zip(p.values, vals) if r is None]
+                if len(unknown) == 1 and all(r is True for r in vals if r is not None):
+                    out.update(implied(unknown[0], False, v, consts))
+            elif isinstance(p.op, ast.Or) and want:
+                unknown = [x for x, r in zip(p.values, vals) if r is None]
+                if len(unknown) == 1 and all(r is False for r in vals if r is not None):
+                    out.update(implied(unknown[0], True, v, consts))
+            return out
+        if isinstance(p, ast.Name) and p.id in defs:
+            return implied(defs[p.id], want, v, consts)
+        if isinstance(p, ast.Constant):
+            return out
+        out[norm(p)] = want
+        return out
+
+    def go(todo, effects, free, consts=None, v=None):
         consts = consts or {}
+        v = val if v is None else v
         if len(done) > limit:
             return
         for i, s in enumerate(todo):
             rest = todo[i + 1:]
             if isinstance(s, ast.If):
-                t = tv(s.test, val, defs, 0, consts if track else None)
+                t = tv(s.test, v, defs, 0, consts if track else None)
                 if t is None:
-                    go(list(s.body) + rest, list(effects), free + [(s.test, True)], consts)
-                    go(list(s.orelse) + rest, list(effects), free + [(s.test, False)], consts)
+                    for outcome, branch in ((True, s.body), (False, s.orelse)):
+                        v2 = dict(v)
+                        v2.update(implied(s.test, outcome, v, consts))
+                        go(list(branch) + rest, list(effects), free + [(s.test, outcome)], consts, v2)
                     return
-                go(list(s.body if t else s.orelse) + rest, effects, free, consts)
+                go(list(s.body if t else s.orelse) + rest, effects, free, consts, v)
                 return
             if isinstance(s, (ast.Return, ast.Raise, ast.Continue, ast.Break)):
                 done.append(Path(effects, type(s).__name__.lower(), s, free))
                 return
             if isinstance(s, ast.Try):
                 # the normal path of the try body; handlers are separate ladders
-                go(list(s.body) + list(s.orelse) + list(s.finalbody) + rest, effects, free, consts)
+                go(list(s.body) + list(s.orelse) + list(s.finalbody) + rest, effects, free, consts, v)
                 return
             if isinstance(s, ast.With):
-                go(list(s.body) + rest, effects + [s], free, consts)
+                go(list(s.body) + rest, effects + [s], free, consts, v)
                 return
             if isinstance(s, (ast.For, ast.While)):
                 if enter_loops:
-                    go(list(s.body) + rest, effects, free, consts)
+                    go(list(s.body) + rest, effects, free, consts, v)
                     return
                 effects = effects + [s]
                 if track:
@@ -238,7 +271,7 @@ def paths(stmts, val, defs=None, enter_loops=False, limit=64, track=False, call_
             if isinstance(s, ast.Pass) or (isinstance(s, ast.Expr) and isinstance(s.value, ast.Constant)):
                 continue
             effects = effects + [s]
-            consts = bind(s, consts)
+            consts = bind(s, consts, v)
         done.append(Path(effects, 'fall', None, free))
     go(list(stmts), [], [])
     return done
@@ -258,7 +291,34 @@ def resolve(e, effects, depth=0):
                 for t, v in zip(tg, vals):
                     if isinstance(t, ast.Name):
                         env[t.id] = v
+        else:
+            comp = append_loop_as_comprehension(s, env)
+            if comp is not None:
+                env[comp[0]] = comp[1]
     return _subst(e, env)
+
+
+def append_loop_as_comprehension(s, env):
+    """`for t in S: X.append(E)` with X known to be an empty list at that point  ==  X = [E for t in S].
+    Returns (X, comprehension node) or None."""
+    if not (isinstance(s, ast.For) and not s.orelse and len(s.body) == 1 and isinstance(s.body[0], ast.Expr) and
+            isinstance(s.body[0].value, ast.Call)):
+        return None
+    c = s.body[0].value
+    if not (isinstance(c.func, ast.Attribute) and c.func.attr == 'append' and isinstance(c.func.value, ast.Name) and
+            len(c.args) == 1 and not c.keywords):
+        return None
+    x = c.func.value.id
+    cur = env.get(x)
+    empty = isinstance(cur, (ast.List, ast.Tuple)) and not cur.elts or \
+        (isinstance(cur, ast.Call) and isinstance(cur.func, ast.Name) and cur.func.id == 'list' and not cur.args)
+    if not empty:
+        return None
+    bound = {y.id for y in ast.walk(s.target) if isinstance(y, ast.Name)}
+    inner = {k: v for k, v in env.items() if k not in bound and k != x}
+    comp = ast.ListComp(elt=_subst(c.args[0], inner),
+                        generators=[ast.comprehension(target=s.target, iter=_subst(s.iter, inner), ifs=[], is_async=0)])
+    return x, ast.fix_missing_locations(ast.copy_location(comp, s))
 
 
 class _S(ast.NodeTransformer):
